@@ -797,7 +797,9 @@ func Gen(t *rapid.T) Case {
 	if rapid.Bool().Draw(t, "par") {
 		c.Parallel = 1 + uniform(t, 3, "parallel")
 	}
-	c.Verbosity = []string{"info", "info", "debug", "trace"}[uniform(t, 4, "verbosity")]
+	// the full range -v accepts; at warn / error the log() markers are dropped and
+	// clause (4) is judged from the boundary probes (see checkMarkers)
+	c.Verbosity = []string{"info", "info", "info", "debug", "trace", "warn", "error", "info", "debug", "warn"}[uniform(t, 10, "verbosity")]
 	c.YAMLStyle = uniform(t, 2, "yaml")
 	c.ReadOnly = uniform(t, 4, "readonly") == 0
 	c.DefTimeout = []string{"", "", "600s"}[uniform(t, 3, "deftimeout")]
